@@ -98,11 +98,21 @@ def fresh_like(name, ty, cur):
 
 
 def _obj_fields(st):
+    """every mutable cell of the concrete part of the heap: object fields, list / set elements, dict entries"""
     out = {}
     for oid, p in st.heap.items():
-        if type(p).__name__ == "ObjP":
+        n = type(p).__name__
+        if n == "ObjP":
             for f, v in p.fields.items():
                 out[(oid, f)] = v
+        elif n in ("ListP", "SetP"):
+            out[(oid, "<len>")] = len(p.items)
+            for k, v in enumerate(p.items):
+                out[(oid, f"[{k}]")] = v
+        elif n == "DictP":
+            out[(oid, "<len>")] = len(p.items)
+            for k, v in p.items.items():
+                out[(oid, f"[{k!r}]")] = v
     return out
 
 
@@ -235,7 +245,7 @@ def run_loop(ex, node, st, spec, cond_fn, bind_fn, n_term, keep_fn, label):
                 if oid not in existed:
                     continue  # an object created inside the body
                 if (oid, fld) not in fields0 or not _same(fields0[(oid, fld)], v):
-                    cname = getattr(getattr(st1.heap[oid], "cls", None), "name", "object")
+                    cname = getattr(getattr(st1.heap[oid], "cls", None), "name", None) or type(st1.heap[oid]).__name__
                     ex.ctx.oblige(st1, "frame-write", f"{label}:body-writes-only-the-declared-frame: {cname}.{fld}", z3.BoolVal(False), node)
             if spec.write_frame is not None:
                 cs_ref1 = SpecEval(ex, st1, env0(st1, it)).ev(spec.write_frame[0])
